@@ -15,6 +15,9 @@ from mc import gwfh
 from mc import simsched
 from mc import world as W
 
+from mc import localchecks
+from mc.localchecks import expand as local_expand  # noqa: F401 (looked up by name in the workers)
+
 ID = "C17"
 LEVEL = "model_checking"
 CANCEL_EXE = {"slurm": "scancel", "sge": "qdel", "lsf": "bkill"}
@@ -178,6 +181,8 @@ def run(ctx):
         w0 = CW.init_world(wfname, backend)
         e2.bfs(ctx, me, "expand", [w0], depth, chunk=1, meta=meta, with_faults=True)
         done.append(dict(meta, depth=depth))
+    local_done = localchecks.run_local(ctx, me, ID, [("twocomp", 3)] if ctx.tier == "quick" else [("twocomp", 5), ("fork", 4)])
+    ctx.notes.setdefault("coverage_extra", {})["local_backend"] = local_done
     ctx.traces_validated = ctx.acc.extra["transitions"] + ctx.acc.extra["invocations"]
     ctx.rule = "state = canonical world; per state 13 selections x (no fault + every failing position x 2 kinds); function level: (n, failing set, untracked set, permutation)"
     ctx.bound = dict(configs=done, selections=13, fault_kinds=["rc1", "stderr_error"])
@@ -185,6 +190,8 @@ def run(ctx):
 
 
 def replay(case):
+    if case.get("kind") == "local":
+        return localchecks.replay(case)
     from mc.runner import Acc
 
     acc = Acc()
